@@ -542,6 +542,12 @@ func main() {
 				if body == nil {
 					body = tok.Build(kind, cmd.String(), "")
 				}
+				// a caller that does not want the result passes no receiver (as the heartbeat ping does): the status it
+				// sees is the same
+				if exp != nil && mode != "closed" && r.Intn(4) == 0 {
+					result = nil
+					class += "|no-result-receiver"
+				}
 				// some calls go through a transfer-filter pipe (the reply inherits it)
 				if t.p.Pipe && mode != "closed" && r.Intn(3) == 0 {
 					pipes := []string{"z", "m", "mz"}
